@@ -12,6 +12,7 @@ sys.path.insert(0, "engine"); sys.path.insert(0, "props")
 import build
 from registry import PROPS
 for pid, P in sorted(PROPS.items()):
-    build.build(os.path.join("props", P["harness"]), P.get("flavor", "asan"), tuple(P.get("images", (("s", "server"), ("ca", "client")))))
+    for part in (P.get("parts") or [P]):
+        build.build(os.path.join("props", part["harness"]), part.get("flavor", "asan"), tuple(part.get("images", (("s", "server"), ("ca", "client")))))
 print("setup ok: %d harnesses built" % len(PROPS))
 PY
